@@ -231,14 +231,9 @@ def stepOutState (r : Run) (l : Loc) (err : Bool) : Run :=
       | none => { r with d := d }
       | some is => { r with d := { d with is := some (exitCmd { is with err := err } depth) } }
 
-/-- `RecordThreadFinished(tid)` -/
-def threadFinished (d : Dbg) : Dbg :=
-  match d.is with
-  | none => { d with depth := 0 }
-  | some is =>
-    -- a state that is running is kept (a step command carries over to the thread's next execution)
-    -- unless it only says "resumed: do not stop again on this line" — that ends with the execution
-    if is.running && is.cmd != .resume then d else { d with is := none, depth := 0 }
+/-- `RecordThreadFinished(tid)`: whatever command is pending (resume, a step, kill) belongs to the
+execution that has just finished; the thread's next execution starts without interrogation state -/
+def threadFinished (d : Dbg) : Dbg := { d with is := none, depth := 0 }
 
 /-- one element of the abstract visit trace of a thread -/
 inductive Ev where
